@@ -354,7 +354,7 @@ def gen_plan(seed: int, tier: str) -> dict:
     envc = {
         "shopify": shopify,
         "auto_escape": rng.random() < 0.3,
-        "undefined": rng.choice([None, None, None, "strict", "falsy"]),
+        "undefined": rng.choice([None, None, "strict", "strict", "falsy"]),
         "trim": rng.choice([None, None, None, "-", "~"]),
         "suppress_blank_control_flow_blocks": rng.choice([None, None, False]),
         "shorthand_indexes": rng.choice([None, None, True]),
@@ -424,7 +424,8 @@ def gen_plan(seed: int, tier: str) -> dict:
     names = list(partials)
     contention = rng.random() < 0.2  # several tasks load the SAME name with different globals
     cname = rng.choice(["gvp", "dir/gvq.html"])
-    pkg_names = ["pk_one", "pk_child", "snippets/pk_card", "snippets/pk_line.html", "pk_bad", "pk_none"]
+    pkg_names = ["pk_one", "pk_child", "snippets/pk_card", "snippets/pk_line.html", "pk_bad", "pk_none",
+                 "pk_crlf", "snippets/pk_crlf2", "pk_crlf", "snippets/pk_crlf2"]   # CRLF / CR line endings
     for _ in range(k):
         pi = rng.randrange(len(progs))
         kind = rng.choices(["render", "analyze", "helpers"], [2, 5, 3] if designed else ([1, 0, 0] if conc else [7, 2, 1]))[0]
